@@ -486,10 +486,33 @@ func runRecord(path string, seed int64, n int, sum *tl.Summary) {
 		try, same := pass, true
 		if r.Intn(2) == 0 {
 			try = randPass(r)
-			if r.Intn(3) == 0 && len(pass) > 0 { // near miss: one byte changed
-				b := []byte(pass)
-				b[r.Intn(len(b))] ^= 1
-				try = string(b)
+			if r.Intn(2) == 0 { // near misses: passphrases are opaque byte strings, every different one must fail
+				switch r.Intn(8) {
+				case 0:
+					try = pass + " "
+				case 1:
+					try = pass + "\n"
+				case 2:
+					try = " " + pass
+				case 3:
+					// not pass + "\x00": HMAC zero-pads its key, so trailing NUL bytes of a passphrase shorter
+					// than 64 bytes are insignificant to PBKDF2/scrypt by construction (the KDF is not injective there)
+					try = pass + "0"
+				case 4:
+					try = strings.ToUpper(pass)
+				case 5:
+					if len(pass) > 0 {
+						try = pass[:len(pass)-1]
+					}
+				case 6:
+					try = strings.Replace(pass, "ä", "a\u0308", 1) // canonically equivalent, different bytes
+				default:
+					if len(pass) > 0 {
+						b := []byte(pass)
+						b[r.Intn(len(b))] ^= 1
+						try = string(b)
+					}
+				}
 			}
 			same = try == pass
 		}
